@@ -29,7 +29,8 @@ RULE = (
     "html_admonition, option-block soup, hostile link destinations; x random valid MdParserConfig (extension subsets, "
     "commonmark mode, anchors, url_schemes shapes, ...); docutils front end and Sphinx dummy builds; fault sequences: include "
     "/ literalinclude-style options / inventories over {missing, directory, invalid UTF-8, truncated zlib, bad header, "
-    "self-including, mutually including} files and scripted OSError/UnicodeDecodeError sequences; distinct by hash of "
+    "self-including, mutually including} files and scripted OSError/UnicodeDecodeError sequences; exhaustive matrices: each syntax rule disabled on its own, every config field x 51 YAML values (front matter / valid global), "
+    "every docutils directive x option x 22 values (and a sample for Sphinx' directives), an attribute line before each of 40 block kinds, link forms x hostile destinations; distinct by hash of "
     "(text, config, front end); non-trivial = the text has >= 2 lines"
 )
 ASSUME = [
